@@ -41,3 +41,33 @@ Theorem C20_walk_rebuilds_the_diagram : forall (a : marena) (x : nid), Inv a -> 
   m_expand_i a x = Some (unfold a x).
 Proof. exact m_expand_i_unfold. Qed.
 Print Assumptions C20_walk_rebuilds_the_diagram.
+
+(** ** every marker a program can hold, after any sequence of operations (the crate's own recursions on ids, memo cache
+    included), is ordered, reduced and partitioning - and so is what a walk over kind() sees of it *)
+From PV Require Import Marker.Expr Interner.OpsModel Interner.InternProofs Interner.InternI Interner.InternIProofs.
+Theorem C20_every_reachable_marker_wf : forall (pv pfv : N) (h : list mop) (x : nid),
+  In x (si_regs (mrun_i pv pfv init_i h)) ->
+  m_wfb (unfold (si_arena (mrun_i pv pfv init_i h)) x) = true.
+Proof.
+  intros pv pfv h x I. apply C20_checker_correct.
+  destruct (mrun_i_spec pv pfv h init_i SInv_i_init) as [S _].
+  destruct (SInv_i_forget _ S) as (_ & _ & W). rewrite Forall_forall in W. exact (W x I).
+Qed.
+
+Theorem C20_every_reachable_walk_wf : forall (pv pfv : N) (h : list mop) (x : nid),
+  In x (si_regs (mrun_i pv pfv init_i h)) ->
+  exists t, m_expand_i (si_arena (mrun_i pv pfv init_i h)) x = Some t /\ m_wfb t = true.
+Proof.
+  intros pv pfv h x I. exists (unfold (si_arena (mrun_i pv pfv init_i h)) x).
+  split; [|now apply C20_every_reachable_marker_wf].
+  destruct (mrun_i_spec pv pfv h init_i SInv_i_init) as [S _].
+  destruct (SInv_i_forget _ S) as (Ia & V & _). rewrite Forall_forall in V.
+  apply m_expand_i_unfold; [exact Ia|exact (V x I)].
+Qed.
+
+Example C20_reachable_example : (* a program of five operations: its last register is a non-trivial well-formed diagram *)
+  let s := mrun_i 2 1 init_i [MExpr (EExtra false false [97%N]); MExpr (EString 1 SEq [98%N]); MAnd 0 1; MNot 2; MSimplifyExtras [[97%N]] 3] in
+  List.length (si_regs s) = 5%nat /\ unfold (si_arena s) (nth 4 (si_regs s) NTrue) <> Leaf true /\ unfold (si_arena s) (nth 4 (si_regs s) NTrue) <> Leaf false.
+Proof. vm_compute. repeat split; discriminate. Qed.
+Print Assumptions C20_every_reachable_marker_wf.
+Print Assumptions C20_every_reachable_walk_wf.
